@@ -44,7 +44,7 @@ func oracleC07(res *RunResult, tailFrom int) []Violation {
 		cls := "inconsistent_accept_under_faults"
 		if r := recOf[v.OpIdx]; r != nil {
 			for _, f := range r.Fired {
-				if strings.Contains(f, "GetLatest") || strings.Contains(f, "drv.Query") || strings.HasPrefix(f, "vfs") {
+				if strings.Contains(f, "GetLatest") || strings.Contains(f, "drv.Query") || strings.Contains(f, "drv.Next") || strings.HasPrefix(f, "vfs") {
 					cls = "tofu_on_read_error"
 				}
 			}
@@ -133,7 +133,7 @@ func init() {
 	register(&Scenario{
 		Prop:  "C07",
 		Level: "fault_enumeration",
-		Rule:  "per seeded history (first use, growth, refresh, forks presented as first use, stale, bad proof, bad signature; 1..3 logs; in-memory and single-connection SQLite): a fault-free dry run lists every storage call, then EVERY single fault position is executed - interface level (open-for-write, read-latest with 5 non-NotFound error kinds, write, close) or SQL-driver level (begin incl. bad-connection, query, exec, commit, rollback) - plus sampled multi-fault patterns (bursts, every other call, everything up to op k) and, on SQLite, VFS-level IOERR / disk-full / short-write windows; each execution ends with a fault-free tail (honest next step per log, then a fork attempt). Oracles: accepted => a fault-free read returns exactly those bytes; failed => store unchanged; commit sequence stays one append-only history (a fork accepted because a failing read looked like 'nothing stored' is the TOFU trap); the tail builds on the last committed state; no wedge (scheduler wedge detection on the one-connection pool), handles opened = closed, sql.DB InUse = 0. evaluations = executions; non-trivial = the injected fault actually fired inside an update; distinct = distinct (call, error kind, op kind, state class, outcome) tuples",
+		Rule:  "per seeded history (first use, growth, refresh, forks presented as first use, stale, bad proof, bad signature; 1..3 logs; in-memory and single-connection SQLite): a fault-free dry run lists every storage call, then EVERY single fault position is executed - interface level (open-for-write, read-latest with 5 non-NotFound error kinds, write, close) or SQL-driver level (begin incl. bad-connection, query, row fetch, exec, commit, rollback) - plus sampled multi-fault patterns (bursts, every other call, everything up to op k) and, on SQLite, VFS-level IOERR / disk-full / short-write windows; each execution ends with a fault-free tail (honest next step per log, then a fork attempt). Oracles: accepted => a fault-free read returns exactly those bytes; failed => store unchanged; commit sequence stays one append-only history (a fork accepted because a failing read looked like 'nothing stored' is the TOFU trap); the tail builds on the last committed state; no wedge (scheduler wedge detection on the one-connection pool), handles opened = closed, sql.DB InUse = 0. evaluations = executions; non-trivial = the injected fault actually fired inside an update; distinct = distinct (call, error kind, op kind, state class, outcome) tuples",
 		Gen: func(r *Rng, tier string, n uint64) *Plan {
 			pf := Profile{MaxLogs: 3, ShareKeys: true}
 			p := &Plan{Scenario: "W"}
@@ -167,7 +167,7 @@ func init() {
 				}
 				calls := []string{"WriteOps", "W.GetLatest", "W.Set", "W.Close"}
 				if p.Cfg.Seam == "driver" {
-					calls = []string{"drv.Begin", "drv.Query", "drv.Exec", "drv.Commit", "drv.Rollback"}
+					calls = []string{"drv.Begin", "drv.Query", "drv.Next", "drv.Exec", "drv.Commit", "drv.Rollback"}
 				}
 				pat := r.IntN(3)
 				from, every := r.IntN(4), 1+r.IntN(2)
@@ -270,7 +270,7 @@ func init() {
 			out.Sample = map[string]any{"history": histSample(p, dry), "single_fault_positions": keys}
 			return out
 		},
-		Components: engineWComponents,
+		Components:  engineWComponents,
 		Assumptions: []string{"interface- and driver-level faults are fail-stop and restricted to what the real stores can do (a failed Set/Exec is not applied; a failed Commit has rolled back; 'commit applied but reported failed' is not something local SQLite does and is not injected)", "VFS-level faults are real SQLite I/O errors produced by a shim VFS; SQLite's own reaction to them is real code", "snapshots use a second fault-free handle on the same store"},
 	})
 }
